@@ -192,7 +192,8 @@ def apply_step(soup, model, rng):
             return ('args_append', p, g)
         if op == 'args_insert':
             g = rng.choice(['{ai}', '[bi]'])
-            i = rng.randint(0, len(tm['args']))
+            # every index a list takes, negative and out of range included
+            i = rng.randint(-len(tm['args']) - 2, len(tm['args']) + 2)
             node.args.insert(i, g)
             tm['args'].insert(i, {'kind': 'delim', 'name': '', 'args': [], 'body': [g[1:-1]],
                                   'open': g[0], 'close': g[-1]})
@@ -200,7 +201,7 @@ def apply_step(soup, model, rng):
         if op == 'args_pop':
             if not tm['args']:
                 continue
-            i = rng.randrange(len(tm['args']))
+            i = rng.randrange(-len(tm['args']), len(tm['args']))
             node.args.pop(i)
             tm['args'].pop(i)
             return ('args_pop', p, i)
@@ -303,6 +304,13 @@ def args_ops(depth_pool):
         ops.append(('insert', i, '{a}'))
         ops.append(('insert', i, '[d]'))
     ops.append(('extend', ('{a}', '[b]')))
+    # strings whose contents start / end with their own delimiter: coercion
+    # strips exactly ONE delimiter on each side
+    for s in ['{{a}c}', '[x[b]]', '{{n}}', '[[o]]', '{a}}', '[[b]']:
+        ops.append(('append_s', s))
+    ops.append(('insert', 0, '{{i}j}'))
+    # any iterable is accepted by extend, one-shot iterators included
+    ops.append(('extend_iter', ('{a}', '[e]')))
     for s in ['{a}', '[b]', '{z}']:
         ops.append(('remove', s))
     for i in (-1, 0, 1, 3):
@@ -340,8 +348,8 @@ def apply_args_op(args, model, op, owner):
         io = run(lambda: args.insert(i, s))
         mo = run(lambda: model.insert(i, s)) if ok_str(s) else ('exc', 'TypeError')
         return io, mo
-    if k == 'extend':
-        io = run(lambda: args.extend(list(op[1])))
+    if k in ('extend', 'extend_iter'):
+        io = run(lambda: args.extend(list(op[1]) if k == 'extend' else iter(list(op[1]))))
 
         def mext():
             for s in op[1]:
